@@ -178,20 +178,143 @@ Definition conv_string (v : gval) : res :=
   | _ => Err
   end.
 
+(* ----- the SET-typed variables: systemSetType.Convert over types.SetType (sql/types/system_set.go, set.go) ----- *)
+Definition is_comma (c : ascii) : bool := (N_of_ascii c =? 44)%N.
+Definition is_space (c : ascii) : bool := (N_of_ascii c =? 32)%N.
+
+(* the pieces between commas (never an empty list) *)
+Fixpoint split_comma (s : string) : list string :=
+  match s with
+  | EmptyString => [EmptyString]
+  | String c r =>
+      if is_comma c then EmptyString :: split_comma r
+      else match split_comma r with
+           | [] => [String c EmptyString]
+           | p :: ps => String c p :: ps
+           end
+  end.
+
+(* strings.TrimRight(s, " ") *)
+Fixpoint trim_right (s : string) : string :=
+  match s with
+  | EmptyString => EmptyString
+  | String c r =>
+      match trim_right r with
+      | EmptyString => if is_space c then EmptyString else String c EmptyString
+      | r' => String c r'
+      end
+  end.
+
+(* strconv.ParseUint(s, 10, 64) *)
+Definition parse_uint (s : string) : option Z :=
+  match s with
+  | EmptyString => None
+  | _ => match digits s 0 with
+         | Some m => if in_u64 m then Some m else None
+         | None => None
+         end
+  end.
+
+(* valToBit / hashedValToBit: the member whose name equals e up to (ASCII) case; both collations used are _ci *)
+Fixpoint member_index (vals : list string) (l : string) (i : nat) : option nat :=
+  match vals with
+  | [] => None
+  | x :: r => if String.eqb (lower (trim_right x)) l then Some i else member_index r l (S i)
+  end.
+
+Definition set_all (vals : list string) : Z := 2 ^ Z.of_nat (length vals) - 1.
+
+(* bitToVal[u] exists: u is the bit of one member *)
+Fixpoint is_member_bit (n : nat) (u : Z) : bool :=
+  match n with
+  | O => false
+  | S m => (u =? 2 ^ Z.of_nat m) || is_member_bit m u
+  end.
+
+(* one comma-separated element of convertStringToBitField: the bits to OR in, or None for ErrInvalidSetValue *)
+Definition set_elem (vals : list string) (e : string) : option Z :=
+  match member_index vals (lower (trim_right e)) 0 with
+  | Some i => Some (2 ^ Z.of_nat i)
+  | None =>
+      match parse_uint e with
+      | Some u => if u =? 0 then Some 0 else if is_member_bit (length vals) u then Some u else None
+      | None => None
+      end
+  end.
+
+Fixpoint set_elems (vals : list string) (es : list string) (acc : Z) : option Z :=
+  match es with
+  | [] => Some acc
+  | e :: r =>
+      match e with
+      | EmptyString => set_elems vals r acc            (* empty pieces are skipped *)
+      | _ => match set_elem vals e with
+             | Some b => set_elems vals r (Z.lor acc b)
+             | None => None
+             end
+      end
+  end.
+
+Definition conv_set_u64 (vals : list string) (u : Z) : res :=
+  if u <=? set_all vals then Ok (GI KUint64 u) else Err.
+
+Definition conv_set (vals : list string) (v : gval) : res :=
+  match v with
+  | GI _ z => conv_set_u64 vals (wrap_u z)
+  | GF n d | GD n d => match float_i64 n d with Some z => conv_set_u64 vals (wrap_u z) | None => Err end
+  | GS s => match set_elems vals (split_comma s) 0 with Some b => Ok (GI KUint64 b) | None => Err end
+  | _ => Err
+  end.
+
+(* SetType.BitsToString: the members whose bit is set, in declaration order *)
+Fixpoint bits_names (vals : list string) (b : Z) : list string :=
+  match vals with
+  | [] => []
+  | x :: r => (if Z.odd b then [trim_right x] else []) ++ bits_names r (Z.div2 b)
+  end.
+Definition bits_to_string (vals : list string) (b : Z) : string := String.concat "," (bits_names vals b).
+
+(* ----- the two variables with ordinary SQL types: types.Uint32 (server_id) and types.Text (server_uuid) ----- *)
+Definition two32 : Z := 4294967296.
+
+(* NumberTypeImpl_.Convert for Uint32 on integers: through int64 (uint64 above MaxInt64 saturates), then saturate above,
+   wrap below zero; MysqlSystemVariable.InitValue ignores the out-of-range flag.  nil stays nil. *)
+Definition conv_u32 (v : gval) : res :=
+  match v with
+  | GNil => Ok GNil
+  | GI _ z =>
+      let n := if two63 <=? z then two63 - 1 else z in
+      if two32 <=? n then Ok (GI KUint32 (two32 - 1))
+      else if n <? 0 then Ok (GI KUint32 (n mod two32))
+      else Ok (GI KUint32 n)
+  | GBool b => Ok (GI KUint32 (if b then 1 else 0))
+  | _ => Unm                 (* floats, decimals, strings: the general numeric conversion is not modelled *)
+  end.
+
+Definition conv_text (v : gval) : res :=
+  match v with
+  | GNil => Ok GNil
+  | GS s => Ok (GS s)
+  | _ => Unm                 (* numbers are formatted *)
+  end.
+
+Definition conv (t : vtype) (v : gval) : res :=
+  match t with
+  | TBool => conv_bool v
+  | TInt lo hi n1 => conv_int lo hi n1 v
+  | TUint lo hi => conv_uint lo hi v
+  | TDouble lo hi => conv_double lo hi v
+  | TEnum vals => conv_enum vals v
+  | TString => conv_string v
+  | TSet _ vals => conv_set vals v
+  | TOther o => if String.eqb o "types.Uint32" then conv_u32 v
+                else if String.eqb o "types.Text" then conv_text v else Unm
+  end.
+
 Definition convert (t : vtype) (v : gval) : res :=
   match v with
   | GOpq _ => Unm
-  | _ =>
-    match t with
-    | TBool => conv_bool v
-    | TInt lo hi n1 => conv_int lo hi n1 v
-    | TUint lo hi => conv_uint lo hi v
-    | TDouble lo hi => conv_double lo hi v
-    | TEnum vals => conv_enum vals v
-    | TString => conv_string v
-    | TSet _ _ => Unm
-    | TOther _ => Unm
-    end
+  | _ => conv t v
   end.
 
 (* the Go value type of a variable's stored value ("with its type") *)
@@ -203,7 +326,11 @@ Definition has_type (t : vtype) (v : gval) : Prop :=
   | TDouble lo hi => exists n d, v = GF n d /\ lo * Zpos d <= n <= hi * Zpos d
   | TEnum vals => exists s, v = GS s /\ In s vals
   | TString => exists s, v = GS s
-  | TSet _ _ | TOther _ => False
+  | TSet _ vals => exists b, v = GI KUint64 b /\ b <= set_all vals      (* the bit field; shown as names, see [shown] *)
+  | TOther o =>
+      if String.eqb o "types.Uint32" then v = GNil \/ exists z, v = GI KUint32 z /\ 0 <= z < two32
+      else if String.eqb o "types.Text" then v = GNil \/ exists s, v = GS s
+      else False
   end.
 
 (* ---------- registry ---------- *)
@@ -330,6 +457,19 @@ Definition get_user (st : state) (s : nat) (u : string) : rd :=
   | None => RNone
   end.
 
+(* GetGlobal / GetSessionVariable turn the stored bit field of a SET-typed variable into the comma-separated names *)
+Definition shown_t (t : vtype) (v : gval) : gval :=
+  match t, v with
+  | TSet _ vals, GI KUint64 b => GS (bits_to_string vals b)
+  | _, _ => v
+  end.
+
+Definition shown (reg : list sysvar) (x : string) (v : gval) : gval :=
+  match lookup reg x with
+  | Some sv => shown_t (v_type sv) v
+  | None => v
+  end.
+
 (* ---------- decidable equality on values (correspondence, registry checks) ---------- *)
 Definition ikind_eqb (a b : ikind) : bool :=
   match a, b with
@@ -358,19 +498,22 @@ Definition gval_same_value (a b : gval) : bool :=
   end.
 
 (* ---------- checks over a registry (decided by computation on the generated one) ---------- *)
-(* the default can be checked when it is a constant of the source and the type is one of the modelled constructors *)
+(* the default can be checked when it is a constant of the source (not computed at start-up) *)
 Definition checkable (sv : sysvar) : bool :=
-  match v_default sv, v_type sv with
-  | GOpq _, _ => false
-  | _, (TSet _ _ | TOther _) => false
-  | _, _ => true
+  match v_default sv with
+  | GOpq _ => false
+  | _ => true
   end.
 
+(* compared as SELECT @@x shows them (a SET-typed default is a string, its converted form a bit field) *)
 Definition default_exact (sv : sysvar) : bool :=
-  match convert (v_type sv) (v_default sv) with Ok d => gval_eqb d (v_default sv) | _ => false end.
+  match convert (v_type sv) (v_default sv) with Ok d => gval_eqb (shown_t (v_type sv) d) (v_default sv) | _ => false end.
 
 Definition default_same_value (sv : sysvar) : bool :=
-  match convert (v_type sv) (v_default sv) with Ok d => gval_same_value d (v_default sv) | _ => false end.
+  match convert (v_type sv) (v_default sv) with
+  | Ok d => gval_same_value (shown_t (v_type sv) d) (v_default sv)
+  | _ => false
+  end.
 
 (* no two names of an enum differ only in case (then Convert is idempotent on its own results) *)
 Fixpoint nodup_lower (vals : list string) : bool :=
